@@ -83,7 +83,11 @@ def showIntro (s : Store) : String :=
     (if k.sub.isNone then "top:" ++ txt k.name else showK k) ++ "=" ++ showV (introVal s k o))))
   -- per-subproject overrides of global options are listed as rows of their own
   let augRows := s.augments.filterMap (fun p =>
-    if (alookup p.1.global s.options).isSome && !(ahas p.1 s.options) then some (showK p.1 ++ "=" ++ showV p.2) else none)
+    match (alookup p.1.global s.options).bind (fun id => s.heap[id]?) with
+    | some g =>
+      -- an override that merely repeats the global value has no row (a subproject without a row has the global value)
+      if !(ahas p.1 s.options) && p.2 != g.value then some (showK p.1 ++ "=" ++ showV p.2) else none
+    | none => none)
   join (rows ++ augRows)
 
 def showOut : MesonModel.Life.Out → String
